@@ -2,6 +2,7 @@ import Driver.Codec
 import Driver.Segment
 import Driver.Wal
 import Driver.Verifier
+import Driver.Migrate
 open Driver
 
 def runStateless (f : String → String) : IO Unit := do
@@ -25,5 +26,6 @@ def main (args : List String) : IO UInt32 := do
   | ["codec"] => runStateless codecLine; return 0
   | ["wal"] => runStateful ({} : WalSt) walLine; return 0
   | ["verifier"] => runStateful ({} : VerSt) verLine; return 0
+  | ["migrate"] => runStateless migLine; return 0
   | ["segment"] => runStateful ({} : SegSt) segLine; return 0
   | _ => IO.eprintln "usage: driver <suite>"; return 2
